@@ -136,6 +136,9 @@ class SymCtx(BaseCtx):
         if not cond:
             raise IgnoreAttempt("assumption")
 
+    def untraced(self):
+        return NoTracing()
+
     def witness(self, tag="w"):
         with NoTracing():
             self.witnesses[tag] += 1
@@ -147,8 +150,8 @@ class SymCtx(BaseCtx):
     def fresh_env(self):
         from unified_planning.environment import Environment
 
-        env = Environment()
         with NoTracing():
+            env = Environment()
             shims.linear_tables(env)
         return env
 
